@@ -86,13 +86,22 @@ def server_script(behaviour, unix):
             if behaviour == 'hello-error':
                 return RM.build(RM.ERROR, 1, {'reply_serial': m.serial, 'error_name': 'org.freedesktop.DBus.Error.Failed'},
                                 's', ['no hello for you'])
+            if behaviour == 'hello-error-nobody':
+                return RM.build(RM.ERROR, 1, {'reply_serial': m.serial, 'error_name': 'org.freedesktop.DBus.Error.Failed'})
+            if behaviour == 'hello-error-int':
+                return RM.build(RM.ERROR, 1, {'reply_serial': m.serial, 'error_name': 'org.freedesktop.DBus.Error.Failed'},
+                                'u', [7])
             return RM.build(RM.METHOD_RETURN, 1, {'reply_serial': m.serial, 'destination': ':1.9'}, 's', [':1.9'],
                             little=(behaviour != 'big-endian'))
         return None
     return on_line, on_message
 
 
-BEHAVIOURS = ['plain', 'second-mechanism', 'external-data', 'fd-error', 'big-endian', 'refuse', 'hello-error']
+BEHAVIOURS = ['plain', 'second-mechanism', 'external-data', 'fd-error', 'big-endian', 'refuse', 'hello-error',
+              'hello-error-nobody', 'hello-error-int']
+
+
+FAILING = ('refuse', 'hello-error', 'hello-error-nobody', 'hello-error-int')
 
 
 class Wire:
@@ -246,7 +255,7 @@ def connect_case(ctx, entries, mask, behaviour, cut, case, fail_kind=0):
     # verdict on the Deferred
     if first_reachable is None:
         want = 'err'
-    elif behaviour in ('refuse', 'hello-error'):
+    elif behaviour in FAILING:
         want = 'err'
     else:
         want = 'ok' if cut is None or (total is not None and cut >= FULL.get((behaviour, ENTRIES[entries[first_reachable]][1][0] == 'unix'), 1 << 30)) else 'err'
@@ -283,7 +292,7 @@ def part_a(ctx, si, sn, quick):
     # full stream length per (behaviour, unix)
     for b in BEHAVIOURS:
         for unix_idx, unix in ((0, True), (2, False)):
-            if b in ('refuse', 'hello-error'):
+            if b in FAILING:
                 continue
             total = connect_case(ctx, [unix_idx], [True], b, None, {'kind': 'connect-full', 'behaviour': b, 'unix': unix})
             FULL[(b, unix)] = total
@@ -452,6 +461,10 @@ def established_case(ctx, scenario_idx, lose_at, partial, case):
                 c = calls.get(a['idx'])
                 if c and c['serial'] and not c['replied']:
                     c['replied'] = True
+                    if a['idx'] % 3 == 1:
+                        return RM.build(RM.ERROR, 5, {'reply_serial': c['serial'], 'error_name': 'org.verif.Refused'})
+                    if a['idx'] % 3 == 2:
+                        return RM.build(RM.ERROR, 5, {'reply_serial': c['serial'], 'error_name': 'org.verif.Refused'}, 'i', [3])
                     return RM.build(RM.METHOD_RETURN, 5, {'reply_serial': c['serial']}, 's', ['r%d' % a['idx']])
             elif kind == 'answer-introspection':
                 out = b''
@@ -613,6 +626,6 @@ def replay(ctx, rp):
 def part_a_full(ctx):
     for b in BEHAVIOURS:
         for unix_idx, unix in ((0, True), (2, False)):
-            if b in ('refuse', 'hello-error'):
+            if b in FAILING:
                 continue
             FULL[(b, unix)] = connect_case(ctx, [unix_idx], [True], b, None, {'kind': 'connect-full'})
